@@ -309,6 +309,35 @@ class Fn:
             self._defs = d
         return self._defs
 
+    def used_locals(self):
+        """Locals read anywhere (operands, places, call arguments, switch/assert operands, drops
+        excluded) plus the return place."""
+        if getattr(self, "_used", None) is None:
+            u = {0}
+            for i, j, st in self.stmts():
+                if st[0] == "a":
+                    for p in rvalue_places(st[2]):
+                        u.update(place_locals(p))
+                    u.update(place_locals(st[1])[1:])
+                    if not isinstance(st[1], int):
+                        u.add(st[1][0]) if any(e == "*" for e in st[1][1]) else None
+            for b in self.blocks:
+                t = b["t"]
+                if t[0] == "call":
+                    for a in t[2]:
+                        if op_local(a) is not None:
+                            u.update(place_locals(op_place(a)))
+                    if t[1].get("r") == "ptr" and op_local(t[1].get("op", [])) is not None:
+                        u.add(op_local(t[1]["op"]))
+                elif t[0] in ("switch", "assert"):
+                    if op_local(t[1]) is not None:
+                        u.add(op_local(t[1]))
+            self._used = u
+        return self._used
+
+    def is_used(self, l):
+        return l in self.used_locals()
+
     def single_def(self, l):
         ds = self.defs().get(l, [])
         return ds[0] if len(ds) == 1 else None
@@ -706,3 +735,39 @@ def const_strings_in(fn, include_promoted=True):
 def short(path, n=70):
     s = strip_generics(path)
     return s if len(s) <= n else "…" + s[-n:]
+
+
+def promoted_consts(fn, idx):
+    """Scalar / string constants found in promoted body `idx` (in order)."""
+    pb = fn.const_of_promoted(idx)
+    out = []
+    if not pb:
+        return out
+    for bl in pb["blocks"]:
+        for st in bl["s"]:
+            if st[0] == "a":
+                for o in rvalue_operands(st[2]):
+                    if o[0] == "k" and o[1] in ("int", "str", "bytes"):
+                        out.append(o[2])
+    return out
+
+
+def operand_scalar(fn, op):
+    """Resolves an operand to a constant scalar when it is a literal, a copy of one, or a
+    reference to a promoted literal; else None."""
+    c = op_const(op)
+    if c is not None:
+        if c[0] in ("int", "str"):
+            return c[1]
+        if c[0] == "promoted":
+            vals = promoted_consts(fn, op[2])
+            return vals[0] if len(vals) == 1 else None
+        return None
+    l = op_local(op)
+    if l is None:
+        return None
+    l = fn.resolve_copy(l)
+    d = fn.single_def(l)
+    if d and d[0] == "stmt" and d[3][0] == "use":
+        return operand_scalar(fn, d[3][1]) if op_local(d[3][1]) != l else None
+    return None
